@@ -205,6 +205,8 @@ type sClient struct {
 
 type sysEnv struct {
 	wedged  bool // a lock wedge inside Helios was diagnosed: teardown must not take Helios locks
+	done    chan struct{} // closed by close(): scripted peers stop sleeping (a goroutine still
+	// asleep when the bubble's root returns is abandoned together with everything it references)
 	x        *X
 	net      *simnet.Net
 	cfg      *config.Config
@@ -226,7 +228,7 @@ type sysEnv struct {
 const heliosAddr = "192.0.2.254:8080"
 
 func newSysEnv(x *X, o sysOpts) (*sysEnv, error) {
-	env := &sysEnv{x: x, net: simnet.New(), exch: map[int]*exchange{}}
+	env := &sysEnv{x: x, net: simnet.New(), exch: map[int]*exchange{}, done: make(chan struct{})}
 	env.net.Free = o.free
 	log.SetOutput(stdLogWatcher)
 	stdLogWatcher.take()
@@ -372,7 +374,9 @@ func (b *sBackend) serve(c net.Conn) {
 			env.mu.Unlock()
 			env.x.Logf("probe at %s t=%v ok=%v", b.name, env.x.Now(), ok)
 			if slow > 0 {
-				time.Sleep(slow)
+				if !env.sleep(slow) {
+					return
+				}
 			}
 			if ok {
 				io.WriteString(c, "HTTP/1.1 200 OK\r\nContent-Length: 2\r\nContent-Type: text/plain\r\n\r\nok")
@@ -446,7 +450,9 @@ func (b *sBackend) play(c net.Conn, req *http.Request, ex *exchange) bool {
 		}
 	}
 	if rs.holdFor > 0 {
-		time.Sleep(rs.holdFor)
+		if !env.sleep(rs.holdFor) {
+			return false
+		}
 	}
 	switch rs.fault {
 	case "hang-headers":
@@ -538,7 +544,9 @@ func (b *sBackend) play(c net.Conn, req *http.Request, ex *exchange) bool {
 			}
 			rest = rest[n:]
 		case "sleep":
-			time.Sleep(st.d)
+			if !env.sleep(st.d) {
+				return false
+			}
 		case "rst":
 			if sc != nil {
 				env.net.Reset(sc)
@@ -622,7 +630,9 @@ func buildRequestHead(ex *exchange) []byte {
 func (c *sClient) run(ex *exchange) {
 	env := c.env
 	if ex.pause > 0 {
-		time.Sleep(ex.pause)
+		if !env.sleep(ex.pause) {
+			return
+		}
 	}
 	env.mu.Lock()
 	ex.started = true
@@ -953,12 +963,25 @@ func min(a, b int) int {
 	return b
 }
 
+// sleep waits d of virtual time; false if the run is being torn down meanwhile.
+func (env *sysEnv) sleep(d time.Duration) bool {
+	t := time.NewTimer(d)
+	defer t.Stop()
+	select {
+	case <-t.C:
+		return true
+	case <-env.done:
+		return false
+	}
+}
+
 // close stops everything the run created.
 func (env *sysEnv) close() {
 	if env.stopped {
 		return
 	}
 	env.stopped = true
+	close(env.done)
 	for _, cl := range env.clients {
 		close(cl.quit)
 	}
@@ -974,6 +997,10 @@ func (env *sysEnv) close() {
 	if env.probeTr != nil {
 		env.probeTr.CloseIdleConnections()
 	}
+	waitQuiet()
+	// net/http lingers half a second on connections it closes after an error
+	// (closeWriteAndWait); let those goroutines end inside the bubble
+	time.Sleep(time.Second)
 	waitQuiet()
 	simrt.TeardownFree()
 	log.SetOutput(io.Discard)
